@@ -1,11 +1,14 @@
 #!/bin/bash
-# tools/mutest.sh <patch.diff> <prop> [tier]  - run a check against a scratch worktree of /repo with the patch applied
+# tools/mutest.sh <patch.diff> <prop> [tier]      run a check against a scratch worktree of /repo with the patch applied
+# tools/mutest.sh --revert <commit> <prop> [tier]  ... with the given /repo commit reverted (e.g. a fix: commit)
 set -e
-patch="$(realpath "$1")"; prop="$2"; tier="${3:-quick}"
+rev=""
+if [ "$1" = "--revert" ]; then rev="$2"; shift 2; else patch="$(realpath "$1")"; shift; fi
+prop="$1"; tier="${2:-quick}"
 d="/tmp/mut-$$"
 git -C /repo worktree add -q --detach "$d" HEAD
 trap 'git -C /repo worktree remove --force "$d"' EXIT
-git -C "$d" apply "$patch"
+if [ -n "$rev" ]; then git -C /repo show "$rev" | git -C "$d" apply -R; else git -C "$d" apply "$patch"; fi
 cd /verif
 set +e
 VERIF_REPO="$d" ./check "$prop" --tier "$tier"
